@@ -205,17 +205,13 @@ where
 
         self.clock.register_ts(inner.timestamp.cast()).await;
 
-        // SAFETY:
-        //   Although this may seem very unsafe, we can rely on the parent type (`KeyspaceOrSwotSet`)
-        //   to satisfy our guarantees when performing this operation.
-        //   - Internally datacake-rpc has already validated and checked the checksum of the overall
-        //     payload of the message when it originally deserialized `KeyspaceOrSwotSet` this ensures
-        //     the actual layout and original data is intact.
-        //   - The alignment issues are solved by the the fact the DataView maintains a 16 byte aligned
-        //     buffer which the parent type maintains in its view form.
-        let state = unsafe {
-            rkyv::from_bytes_unchecked(&inner.set).map_err(|_| Status::invalid())?
-        };
+        // The nested state is only as trustworthy as the peer that produced it: the checksum
+        // of the outer message says nothing about whether these bytes are a valid archive, and
+        // the position of the slice inside the outer buffer decides its alignment. So it is
+        // copied into an aligned buffer and validated before it is used.
+        let mut aligned = rkyv::AlignedVec::with_capacity(inner.set.len());
+        aligned.extend_from_slice(&inner.set);
+        let state = OrSWotSet::from_bytes(&aligned).map_err(|_| Status::invalid())?;
 
         Ok((inner.last_updated.cast(), state))
     }
